@@ -37,7 +37,8 @@ Init0 == [tid |-> 0, infl |-> {}, cap |-> 0,
           got |-> [c \in Calls |-> <<>>], done |-> [c \in Calls |-> "pending"], outcomes |-> [c \in Calls |-> 0],
           called |-> {}, mbox |-> <<>>, net |-> {},
           rt |-> <<>>,                 \* function: peer -> last_seen (ms); DOMAIN = members of the main routing table
-          lastRefresh |-> 0, lastPing |-> 0, server |-> FALSE, firewalled |-> TRUE]
+          lastRefresh |-> 0, lastPing |-> 0, server |-> FALSE, firewalled |-> TRUE,
+          ghost |-> {}]                \* peers that every answer lists in addition (scenario switch: an unreachable node, port 0)
 
 Dom(f) == DOMAIN f
 Put1(f, k, v) == [x \in Dom(f) \cup {k} |-> IF x = k THEN v ELSE f[x]]
@@ -194,7 +195,7 @@ Tick(stIn, input, now, expired, ord) ==
                           ELSE st1
              ELSE IF qT # {}
                   THEN LET t == CHOOSE x \in qT : TRUE
-                           a == [st1 EXCEPT !.q[t].cand = IF isResp THEN @ \cup Knows[input.peer][t] ELSE @,
+                           a == [st1 EXCEPT !.q[t].cand = IF isResp THEN @ \cup Knows[input.peer][t] \cup st1.ghost ELSE @,
                                             !.q[t].resp = IF input.kind \in {"tok", "val"} THEN @ \cup {input.peer} ELSE @,
                                             !.q[t].seen = IF input.kind \in {"tok", "val"} THEN Put1(@, input.peer, now) ELSE @,
                                             !.q[t].vals = IF input.kind = "val" THEN Append(@, input.val) ELSE @,
